@@ -1,4 +1,4 @@
-import Asn1cModel.Proofs.CRangeCompute
+import Asn1cModel.Proofs.CRangeChain
 import Asn1cModel.Impl.CTables
 /- C09 helper lemmas, third part: the bit-count loops of `emit_single_member_PER_constraint`. -/
 import Mathlib.Tactic.NormNum
